@@ -288,8 +288,20 @@ class MacroGen:
             else:
                 body.append(["result", self.expr(sc, nparams)])
         leak = rng.random() < self.k["leak"]
-        return {"uid": self.uid, "nparams": nparams, "body": body, "ctx": ctxk, "decls": decls, "calls": calls,
+        prog = {"uid": self.uid, "nparams": nparams, "body": body, "ctx": ctxk, "decls": decls, "calls": calls,
                 "leak_probe": MACRO_ONLY if leak else None}
+        # a method call `n(...)` is only meaningful when the macro binds no local `n` anywhere (its own local would
+        # legitimately shadow the method): such calls are replaced by their argument
+        locs = analyse(prog)["macro_locals"]
+        if locs:
+            def fix(x):
+                if isinstance(x, list):
+                    if x and x[0] == "mcall" and x[1] in locs:
+                        return fix(x[2])
+                    return [fix(y) for y in x]
+                return x
+            prog["body"] = fix(prog["body"])
+        return prog
 
 
 def names_of_arg(a):
